@@ -74,6 +74,7 @@ class CompiledFunction:
         default_factory=dict
     )  # bytecode_pos -> (line, column)
     is_arrow: bool = False  # Arrow function: lexical this, not a constructor
+    inferred_name: str = ""  # name an anonymous function takes from `var f = ...`, `f = ...`, `{f: ...}`
 
 
 @dataclass
@@ -115,6 +116,7 @@ class Compiler:
         self._pending_labels: List[str] = []  # labels waiting for the next loop
         self.functions: List[CompiledFunction] = []
         self._in_function: bool = False  # Track if we're compiling inside a function
+        self._name_hint: str = ""  # name for the anonymous function compiled next
         self._outer_locals: List[List[str]] = []  # Stack of outer scope locals
         self._free_vars: List[str] = []  # Free variables captured from outer scopes
         self._cell_vars: List[str] = []  # Local variables captured by inner functions
@@ -481,7 +483,7 @@ class Compiler:
             for decl in node.declarations:
                 name = decl.id.name
                 if decl.init:
-                    self._compile_expression(decl.init)
+                    self._compile_named_value(decl.init, name)
                 else:
                     self._emit(OpCode.LOAD_UNDEFINED)
 
@@ -1251,6 +1253,14 @@ class Compiler:
 
     # ---- Expressions ----
 
+    def _compile_named_value(self, node: Node, name: str) -> None:
+        """Compile the value being bound to `name`; an anonymous function takes that name."""
+        if isinstance(node, ArrowFunctionExpression) or (
+            isinstance(node, FunctionExpression) and node.id is None
+        ):
+            self._name_hint = name
+        self._compile_expression(node)
+
     def _compile_expression(self, node: Node) -> None:
         """Compile an expression."""
         if isinstance(node, NumericLiteral):
@@ -1340,7 +1350,13 @@ class Compiler:
                 kind_idx = self._add_constant(prop.kind)
                 self._emit(OpCode.LOAD_CONST, kind_idx)
                 # Value
-                self._compile_expression(prop.value)
+                if prop.kind == "init" and not prop.computed and isinstance(
+                    prop.key, (Identifier, StringLiteral)
+                ):
+                    key_name = prop.key.name if isinstance(prop.key, Identifier) else prop.key.value
+                    self._compile_named_value(prop.value, key_name)
+                else:
+                    self._compile_expression(prop.value)
             self._emit(OpCode.BUILD_OBJECT, len(node.properties))
 
         elif isinstance(node, UnaryExpression):
@@ -1566,7 +1582,7 @@ class Compiler:
             if isinstance(node.left, Identifier):
                 name = node.left.name
                 if node.operator == "=":
-                    self._compile_expression(node.right)
+                    self._compile_named_value(node.right, name)
                 else:
                     # Compound assignment - load current value first
                     cell_slot = self._get_cell_var(name)
@@ -1692,9 +1708,11 @@ class Compiler:
 
         elif isinstance(node, FunctionExpression):
             name = node.id.name if node.id else ""
+            hint, self._name_hint = self._name_hint, ""
             func = self._compile_function(
                 name, node.params, node.body, is_expression=True
             )
+            func.inferred_name = hint
             func_idx = len(self.functions)
             self.functions.append(func)
 
@@ -1703,7 +1721,9 @@ class Compiler:
             self._emit(OpCode.MAKE_CLOSURE, func_idx)
 
         elif isinstance(node, ArrowFunctionExpression):
+            hint, self._name_hint = self._name_hint, ""
             func = self._compile_arrow_function(node)
+            func.inferred_name = hint
             func_idx = len(self.functions)
             self.functions.append(func)
 
